@@ -46,6 +46,8 @@ type Conn struct {
 	brokerGone  bool // broker closed its side / discarded the connection
 	connecting  bool // a Connect on this transport is in progress (harness view)
 	fragIdx     int
+	busyUntil   int64      // b2c stream: fake time (ns) until which earlier packets occupy the stream
+	sendMu      sync.Mutex // engine R: one packet's fragments are contiguous
 	jitIdx      int
 }
 
@@ -134,6 +136,19 @@ func (c *Conn) Read(p []byte) (int, error) {
 	}
 }
 
+// logAttempt records the packet a failed Write call tried to transmit.
+func (c *Conn) logAttempt(p []byte, why string) {
+	n, first, body, err := Frame(p)
+	if err != nil || n == 0 {
+		return
+	}
+	pkt, err := DecodeC2B(first, body)
+	if err != nil {
+		return
+	}
+	c.s.log(Rec{Kind: "txfail", Conn: c.k, P: pkt, Err: why})
+}
+
 // Write implements io.Writer. It never parks (see DESIGN 3.3).
 func (c *Conn) Write(p []byte) (int, error) {
 	s := c.s
@@ -143,11 +158,13 @@ func (c *Conn) Write(p []byte) (int, error) {
 	if c.localClosed {
 		c.mu.Unlock()
 		s.log(Rec{Kind: "write", Conn: c.k, N: w, V: int64(len(p)), Err: ErrSimClosed.Error()})
+		c.logAttempt(p, ErrSimClosed.Error())
 		return 0, ErrSimClosed
 	}
 	if c.peerClosed != 0 || c.writeDead {
 		c.mu.Unlock()
 		s.log(Rec{Kind: "write", Conn: c.k, N: w, V: int64(len(p)), Err: ErrSimBroken.Error()})
+		c.logAttempt(p, ErrSimBroken.Error())
 		return 0, ErrSimBroken
 	}
 	if f := s.faultAt("writeErr", c.k, w); f != nil {
@@ -163,6 +180,7 @@ func (c *Conn) Write(p []byte) (int, error) {
 		c.mu.Unlock()
 		s.fire("writeErr")
 		s.log(Rec{Kind: "write", Conn: c.k, N: w, V: int64(len(p)), Err: ErrSimWrite.Error(), S: fmt.Sprintf("prefix=%d", pre)})
+		c.logAttempt(p, ErrSimWrite.Error())
 		// the link is dead: the peer will see the connection go away shortly
 		s.after(us(s.sc.Cfg.LatC2BUs), "writeErr-cut", func() { c.cut(true, "writeErr") })
 		return pre, ErrSimWrite
@@ -276,24 +294,94 @@ func (c *Conn) send(p *Pkt, raw []byte, class string, extraDelayNs int64, frag [
 	if frag == nil {
 		frag = s.sc.Cfg.Frag
 	}
-	d := us(s.sc.Cfg.LatB2CUs+jit) + extraDelayNs
 	if s.race {
+		c.sendMu.Lock()
 		c.releaseFrags(m, p, raw, class, frag, eofAfter)
+		c.sendMu.Unlock()
 		return m
 	}
-	s.after(d, "b2c", func() { c.releaseFrags(m, p, raw, class, frag, eofAfter) })
+	// split into fragments now; the byte stream is ordered, so this packet
+	// starts after everything scheduled earlier and its fragments are contiguous
+	var parts [][]byte
+	rest := raw
+	c.mu.Lock()
+	for len(rest) > 0 {
+		sz := len(rest)
+		if len(frag) > 0 {
+			sz = frag[c.fragIdx%len(frag)]
+			c.fragIdx++
+			if sz <= 0 || sz > len(rest) {
+				sz = len(rest)
+			}
+		}
+		parts = append(parts, rest[:sz])
+		rest = rest[sz:]
+	}
+	if len(raw) == 0 {
+		parts = [][]byte{{}}
+	}
+	t0 := s.nowNs() + us(s.sc.Cfg.LatB2CUs+jit) + extraDelayNs
+	if t0 <= c.busyUntil {
+		t0 = c.busyUntil + 1
+	}
+	c.busyUntil = t0 + int64(len(parts)-1)*1000
+	c.mu.Unlock()
+	if len(parts) > 1 {
+		s.probe("fragmented-delivery")
+	}
+	for i := range parts {
+		i := i
+		s.at(t0+int64(i)*1000, "b2c", func() { c.releasePart(m, p, raw, class, parts, i, eofAfter) })
+	}
 	return m
 }
 
+// releasePart puts fragment i of packet m into the read buffer (engine S).
+func (c *Conn) releasePart(m int, p *Pkt, raw []byte, class string, parts [][]byte, i int, eofAfter bool) {
+	s := c.s
+	if c.isSilent() {
+		if i == 0 {
+			s.log(Rec{Kind: "dropb2c", Conn: c.k, N: m, P: p, S: "silent"})
+		}
+		return
+	}
+	if !c.deliver(parts[i]) {
+		if i == 0 {
+			s.log(Rec{Kind: "lostb2c", Conn: c.k, N: m, P: p})
+		}
+		return
+	}
+	if i != len(parts)-1 {
+		return
+	}
+	s.log(Rec{Kind: "rx", Conn: c.k, N: m, P: p, S: class, V: int64(len(raw))})
+	c.afterRx(m, eofAfter)
+}
+
+func (c *Conn) afterRx(m int, eofAfter bool) {
+	s := c.s
+	if eofAfter {
+		s.after(1000, "eof-after", func() { c.cut(false, "script-eof") })
+	}
+	if f := s.faultAt("cutAfterResp", c.k, m); f != nil {
+		s.after(1000, "cutAfterResp", func() {
+			if c.alive() {
+				s.fire("cutAfterResp")
+				c.cut(f.Reset, "cutAfterResp")
+			}
+		})
+	}
+}
+
+// releaseFrags delivers a whole packet fragment by fragment (engine R only).
 func (c *Conn) releaseFrags(m int, p *Pkt, raw []byte, class string, frag []int, eofAfter bool) {
 	s := c.s
 	if c.isSilent() {
 		s.log(Rec{Kind: "dropb2c", Conn: c.k, N: m, P: p, S: "silent"})
 		return
 	}
-	// split into fragments
-	var parts [][]byte
 	rest := raw
+	first := true
 	for len(rest) > 0 {
 		sz := len(rest)
 		if len(frag) > 0 {
@@ -305,47 +393,22 @@ func (c *Conn) releaseFrags(m int, p *Pkt, raw []byte, class string, frag []int,
 				sz = len(rest)
 			}
 		}
-		parts = append(parts, rest[:sz])
-		rest = rest[sz:]
-	}
-	if len(parts) > 1 {
-		s.probe("fragmented-delivery")
-	}
-	var step func(i int)
-	step = func(i int) {
-		if i >= len(parts) {
-			return
-		}
-		ok := c.deliver(parts[i])
-		if !ok {
-			if i == 0 {
+		if !c.deliver(rest[:sz]) {
+			if first {
 				s.log(Rec{Kind: "lostb2c", Conn: c.k, N: m, P: p})
 			}
 			return
 		}
-		if i == len(parts)-1 {
-			s.log(Rec{Kind: "rx", Conn: c.k, N: m, P: p, S: class, V: int64(len(raw))})
-			if eofAfter {
-				s.after(1000, "eof-after", func() { c.cut(false, "script-eof") })
-			}
-			if f := s.faultAt("cutAfterResp", c.k, m); f != nil {
-				s.after(1000, "cutAfterResp", func() {
-					if c.alive() {
-						s.fire("cutAfterResp")
-						c.cut(f.Reset, "cutAfterResp")
-					}
-				})
-			}
-			return
-		}
-		if s.race {
+		first = false
+		rest = rest[sz:]
+		if len(rest) > 0 {
 			runtimeGosched()
-			step(i + 1)
-			return
 		}
-		s.after(1000, "frag", func() { step(i + 1) })
 	}
-	step(0)
+	s.log(Rec{Kind: "rx", Conn: c.k, N: m, P: p, S: class, V: int64(len(raw))})
+	if eofAfter {
+		c.cut(false, "script-eof")
+	}
 }
 
 // ---- dialer ----
